@@ -1219,18 +1219,37 @@ def shrink_pair(case, op_limit):
     return pair_case(case["key"], ca[0], ca[1], cb[0], cb[1]), va, vb
 
 
+RETRY_OP_LIMIT = 900.0   # seconds per op when an op that hit the ordinary limit is repeated alone
+
+
+def confirmed_timeout(ctx, h, i):
+    """An op that hits the per-op time limit on a loaded machine is not a failure of the property (the limit exists to
+    recognise non-termination, e.g. the subdivision loop never reaching N): the history prefix is repeated alone in a
+    fresh process with a 900 s limit per op, and only if the op does not return there either is it reported."""
+    prefix = {"r0": h["r0"], "ops": h["ops"][:i + 1]}
+    r = run_fresh([prefix], RETRY_OP_LIMIT, timeout=RETRY_OP_LIMIT * (i + 1) + 300)[0]
+    if r["timeout"]:
+        return True
+    ctx.branch("slow_op_repeated_with_long_limit")
+    ctx.note(f"op {i} ({h['ops'][i]}) exceeded the ordinary per-op time limit (machine load) and returned when repeated alone "
+             "with a 900 s limit; its observations are not used in this run")
+    return False
+
+
 def oracle_histories(ctx, hist, execs, refs, ref_hists=(), ref_timeouts=(), minimise=True):
     table = {}
     for h, ex in zip(hist, execs):
         oracle_errors(ctx, h, ex)
     for n, i in ref_timeouts:
         h = ref_hists[n]
-        ctx.fail("C08:timeout", f"op {i} ({h['ops'][i]}) did not return within the time limit in a fresh process",
-                 case_of({"r0": h["r0"], "ops": h["ops"][:i + 1]}, i))
+        if confirmed_timeout(ctx, h, i):
+            ctx.fail("C08:timeout", f"op {i} ({h['ops'][i]}) did not return within {RETRY_OP_LIMIT:.0f} s in a fresh process",
+                     case_of({"r0": h["r0"], "ops": h["ops"][:i + 1]}, i))
     for hi, (h, ex) in enumerate(zip(hist, execs)):
         if ex["timeout"]:
             i = len(ex["steps"]) - 1
-            ctx.fail("C08:timeout", f"op {i} ({h['ops'][i]}) did not return within the time limit", case_of(h, i))
+            if confirmed_timeout(ctx, h, i):
+                ctx.fail("C08:timeout", f"op {i} ({h['ops'][i]}) did not return within {RETRY_OP_LIMIT:.0f} s", case_of(h, i))
             continue
         for key, val, i in observations(h, ex):
             table.setdefault(key, []).append((val, ("history", hi, i)))
@@ -1389,8 +1408,18 @@ def prefix_case(ctx, tables, alg, N, full=False, rep=None):
             Nr = rep_int(N, rep.get("N"))
             a = np.array(factory_create(rep_str(alg, rep.get("alg")), Nr, dim=DIM[alg]).grid, dtype=np.float64) if full else gen_only(alg, Nr)
     except OpTimeout:
-        ctx.fail("C08:timeout", f"creation of {alg}_{N} did not return", case)
-        return
+        # not a failure by itself on a loaded machine: repeated once with the long limit
+        try:
+            with core.quiet(), time_limit(RETRY_OP_LIMIT):
+                Nr = rep_int(N, rep.get("N"))
+                a = np.array(factory_create(rep_str(alg, rep.get("alg")), Nr, dim=DIM[alg]).grid, dtype=np.float64) if full else gen_only(alg, Nr)
+            ctx.branch("slow_op_repeated_with_long_limit")
+        except OpTimeout:
+            ctx.fail("C08:timeout", f"creation of {alg}_{N} did not return within {RETRY_OP_LIMIT:.0f} s", case)
+            return
+        except Exception as e:
+            ctx.fail(f"C08:prefix:{alg}", f"creation of {alg}_{N} (N as {rep.get('N') or 'int'}) raised {core.errname(e)}", case)
+            return
     except Exception as e:
         ctx.fail(f"C08:prefix:{alg}", f"creation of {alg}_{N} (N as {rep.get('N') or 'int'}) raised {core.errname(e)}", case)
         return
@@ -1607,7 +1636,7 @@ def _run_histories_then_refs(ctx, tables, hist, procs, mp_pool):
         if reads and makes:
             ctx.nt(json.dumps(h["ops"], sort_keys=True))
     _dbg(ctx, 'compared')
-    refs, ref_hists, ref_timeouts = join_refs(procs, timeout=600 if ctx.quick else 3000)
+    refs, ref_hists, ref_timeouts = join_refs(procs, timeout=1800 if ctx.quick else 3000)
     _dbg(ctx, 'refs joined')
     ctx.branch("fresh_process_observations", sum(len(v) for v in refs.values()))
     ctx.branch("fresh_process_histories", len(ref_hists))
